@@ -76,3 +76,101 @@ Require RV.Gen.PtfGen RV.Proofs.GenEqPtf.
 Theorem C06_ptf_is_the_code : PtfGen.ptf_skeleton = GenEqPtf.ptf_expected.
 Proof. exact GenEqPtf.Gen_ptf_skeleton_eq. Qed.
 Print Assumptions C06_ptf_is_the_code.
+
+(* ---- Handler-level confinement of the multifilesystem storage (extension).
+   Gen/C06Sites.v is REGENERATED on every run by translate/t_c06sites.py: every call in radicale/storage/multifilesystem/*.py,
+   multifilesystem_nolock.py and storage/__init__.py that hands a path to the operating system (open, os.*, os.path.*,
+   TemporaryDirectory, shutil.*, rename_exchange, RwLock, the base of path_to_filesystem, the three pinned helpers), with the
+   syntactic provenance of the path; parameters of internal functions are resolved through the table `calls` of all their
+   call sites; parameters of the PUBLIC storage methods (what radicale/app hands over) are arbitrary strings.
+   [den] (Model/C06Prov.v) is the set of values a provenance term can take; what it trusts is listed in notes/C06.md. *)
+Require Import RV.Model.C06Prov RV.Proofs.C06SitesProofs.
+Require RV.Gen.C06Sites.
+
+(* The reflective checker is sound: if it accepts a table, every value of every site is a path made of safe components
+   below a configured folder (never VOut, the parent of the folder), and every client-chosen component passed
+   is_safe_filesystem_path_component. *)
+Theorem C06_sites_ok_sound : forall calls sites, sites_ok calls sites = true ->
+  forall s, In s sites -> forall v, den calls (s_prov s) v -> good v.
+Proof. exact sites_ok_sound. Qed.
+Print Assumptions C06_sites_ok_sound.
+
+(* It accepts the table regenerated from the current source (vm_compute). *)
+Theorem C06_sites_checked : sites_ok C06Sites.calls C06Sites.sites = true.
+Proof. exact Gen_c06_sites_ok. Qed.
+Print Assumptions C06_sites_checked.
+
+(* Hence, for EVERY site of the current storage code and every value its path argument can take: the string the
+   operating system receives is root/c1/../cn with every ci a safe component (no "..", ".", "", no separator: lexically
+   inside the folder), and no component chosen by a client begins with "." (so none names .Radicale.lock, .Radicale.cache,
+   .Radicale.props, .Radicale.tmp-NNN) or ends with "~". *)
+Theorem C06_sites_confined : forall s, In s C06Sites.sites ->
+  forall root cs, den C06Sites.calls (s_prov s) (VP cs) ->
+  (exists parts, fs_render root cs = root ++ List.concat (map (cons slash) parts)
+                 /\ Forall (fun p => PathGen.is_safe_path_component p = true) parts)
+  /\ (forall c, In (true, c) cs ->
+        PathGen.is_safe_filesystem_path_component c = true /\ startswith c [dot] = false /\ endswith c [tilde] = false).
+Proof. exact c06_sites_confined_gen. Qed.
+Print Assumptions C06_sites_confined.
+
+(* No site can receive the parent of a configured folder (os.path.dirname applied once too often). *)
+Theorem C06_sites_never_outside : forall s, In s C06Sites.sites -> ~ den C06Sites.calls (s_prov s) VOut.
+Proof. exact c06_sites_never_outside. Qed.
+Print Assumptions C06_sites_never_outside.
+
+(* The semantic rules for path_to_filesystem and os.path.join are what the modelled functions do on a confined path
+   (the first one is C06_to_fs applied to the rendered base). *)
+Theorem C06_sites_ptf_rule : forall root cs sp f, root <> [] -> endswith root [slash] = false ->
+  Forall good_c cs -> path_to_filesystem (fs_render root cs) sp = Some f ->
+  exists parts, Forall (fun p => is_safe_filesystem_path_component p = true) parts
+    /\ f = fs_render root (cs ++ map (pair true) parts).
+Proof. exact ptf_bridge. Qed.
+Print Assumptions C06_sites_ptf_rule.
+
+Theorem C06_sites_join_rule : forall root cs x, root <> [] -> endswith root [slash] = false ->
+  Forall good_c cs -> good_c x -> posix_join (fs_render root cs) (snd x) = fs_render root (cs ++ [x]).
+Proof. exact join_bridge. Qed.
+Print Assumptions C06_sites_join_rule.
+
+(* ---- The application side: every call in radicale/app/NAME.py of a storage entry point (discover, create_collection,
+   acquire_lock(path=), upload, delete, move, get_multi, sync) with the way its string argument was obtained, REGENERATED
+   on every run.  The checker accepts a path argument only if it is built from results of pathutils.sanitize_path
+   (a prefix-stripped suffix, a parent, the path parameter the gate hands to the handlers) or is the principal path of a
+   login name that passed is_safe_path_component; a name argument only if it is the last component of such a path, was
+   checked by name_from_path, or came back from the storage.  This is a ROUTING statement about the source text
+   (Routed / Named are syntactic); the confinement itself (C06_sites_confined) does not depend on it. *)
+Theorem C06_app_sites_ok_sound : forall calls sites, app_sites_ok calls sites = true ->
+  forall s, In s sites ->
+  match a_role s with
+  | RPath => Routed calls (a_prov s)
+  | RName => Named calls (a_prov s)
+  | RToken => True
+  end.
+Proof. exact app_sites_ok_sound. Qed.
+Print Assumptions C06_app_sites_ok_sound.
+
+Theorem C06_app_sites_checked : app_sites_ok C06Sites.app_calls C06Sites.app_sites = true.
+Proof. exact Gen_c06_app_sites_ok. Qed.
+Print Assumptions C06_app_sites_checked.
+
+Theorem C06_app_sites_routed : forall s, In s C06Sites.app_sites ->
+  match a_role s with
+  | RPath => Routed C06Sites.app_calls (a_prov s)
+  | RName => Named C06Sites.app_calls (a_prov s)
+  | RToken => True
+  end.
+Proof. exact c06_app_sites_routed. Qed.
+Print Assumptions C06_app_sites_routed.
+
+(* ---- The static web pages: every `X.joinpath(arg)` (and every file-system call) of radicale/httputils.py and
+   radicale/web/NAME.py, REGENERATED on every run.  A request-derived component must have passed
+   is_safe_filesystem_path_component with no transformation in between (a decoding step after the check is PUnknown). *)
+Theorem C06_web_sites_checked : sites_ok C06Sites.web_calls C06Sites.web_sites = true.
+Proof. exact Gen_c06_web_sites_ok. Qed.
+Print Assumptions C06_web_sites_checked.
+
+Theorem C06_web_sites_confined : forall s, In s C06Sites.web_sites ->
+  forall c, den C06Sites.web_calls (s_prov s) (VC c) ->
+  is_safe_path_component (snd c) = true /\ (fst c = true -> is_safe_filesystem_path_component (snd c) = true).
+Proof. exact c06_web_sites_confined. Qed.
+Print Assumptions C06_web_sites_confined.
